@@ -167,7 +167,7 @@ CLAIMED['C14'] = dict(
          'volume curve) from three start models, and every history of length 2 within each operation family (thorough: length 2 over all operations, length 3 per family): name lists = iterators = counts, typed subsets '
          'partition the node and link sets, end nodes are registered objects, get_links_for_node (ALL/INLET/OUTLET) and to_graph equal the links by end-node names, usage records and actual uses coincide, and a removal of '
          'an element in use is refused leaving the dictionary unchanged. Rejected operations are part of the histories.',
-    note='Bounded exhaustive enumeration driven by the solver (discrete input space), not a proof beyond the bound; name pools of 3 nodes / 2 links / 2 patterns / 3 curves; self-loop links and re-used source names excluded.',
+    note='Bounded exhaustive enumeration driven by the solver (discrete input space), not a proof beyond the bound; name pools of 3 nodes / 2 links / 2 patterns / 3 curves; re-used source names excluded; self-loop links are included.',
     ref='DESIGN.md section 4, C14')
 
 CLAIMED['C18'] = dict(
